@@ -13,8 +13,23 @@ AbsPat(a) == [tsid |-> a.tsid, version |-> a.version, cni |-> a.cni, entries |->
 ObsStreams(o) == [i \in 1..Len(o) |-> [type |-> o[i].type, pid |-> o[i].pid, descs |-> AbsDescs(o[i].descs)]]
 \* the harness logs each multiplexed signal as the section bytes it put in the packet and the decoded getters
 SctePkts(pkts, pid) == SelectSeq(pkts, LAMBDA p : Get("pid", p) = pid)
+\* ---- encoder boundary points carried in transport private data ----
+AFm == INSTANCE AdaptationField
+E   == INSTANCE Ebp
+\* what adaptationfield.EncoderBoundaryPoint must return for packet p: the transport private data when the packet
+\* has an adaptation field of non-zero length whose private-data flag is set; "no EBP" otherwise
+EbpOf(p) == IF Get("afc", p) \in {2, 3} /\ p[5] > 0 /\ AFm!Parse(SubSeq(p, 5, 5 + p[5])).ok /\ AFm!Parse(SubSeq(p, 5, 5 + p[5])).a.hastpd
+            THEN <<AFm!Parse(SubSeq(p, 5, 5 + p[5])).a.tpd>> ELSE <<>>
+EbpScanVerdict(e) ==
+  IF Len(e.res) # Len(e.packets) THEN "harness-ebpscan-count"
+  ELSE IF \E i \in 1..Len(e.packets) : EbpOf(e.packets[i]) = <<>> /\ e.res[i].err # "noebp" THEN "ebp-reported-for-a-packet-without-private-data"
+  ELSE IF \E i \in 1..Len(e.packets) : EbpOf(e.packets[i]) # <<>> /\ (e.res[i].err # "nil" \/ e.res[i].bytes # EbpOf(e.packets[i])[1]) THEN "ebp-bytes"
+  ELSE IF \E i \in 1..Len(e.packets) : EbpOf(e.packets[i]) # <<>> /\ E!Parse(EbpOf(e.packets[i])[1]).ok
+                                         /\ (e.res[i].err2 \/ e.res[i].redata # EbpOf(e.packets[i])[1]) THEN "ebp-decode"
+  ELSE ""
 Verdict(e) ==
   IF e.panic # "" THEN "panic"
+  ELSE IF e.op = "ebpscan" THEN EbpScanVerdict(e)
   ELSE IF ~S!Found(e.stream) THEN "harness-no-sync"
   ELSE IF e.sync_err # "nil" \/ e.sync_off # S!First(e.stream) THEN "demux-sync-offset"
   ELSE LET pkts == PacketsFrom(e.stream, S!First(e.stream))
